@@ -200,7 +200,7 @@ class MosekWrapper(Wrapper):
                     -.5 * (i != j) - 1 * (i == j)])  # 1/2 because we have to symmetrize the matrix!
                 # fill the mosek (equality) constraint 
                 self.task.putbaraij(nb_cons, 0, [sym_A1], [1.0])
-                self.task.putbaraij(nb_cons, psd_matrix.counter + 1, [sym_A2], [1.0])
+                self.task.putbaraij(nb_cons, self._nb_pep_SDPconstraints_in_mosek - 1, [sym_A2], [1.0])
                 self.task.putaijlist(nb_cons + np.zeros(a_i.shape, dtype=np.int32), a_i, a_val)
                 self.task.putconbound(nb_cons, mosek.boundkey.fx, -alpha_val, -alpha_val)
 
